@@ -76,7 +76,7 @@ def _nfunc(mod: Module, qn: str) -> ast.AST:
             no_inline.add(_quoter_role(mod)[1])
         except Undecided:
             pass
-    f = unroll_const_loops(inline_helpers(mod, mod.func(qn), cls, no_inline), True)      # inline_helpers works on a copy; the rest edits that copy
+    f = unroll_const_loops(desugar_list_comp_assigns(inline_helpers(mod, mod.func(qn), cls, no_inline), only_tables=True, inplace=True), True)      # inline_helpers works on a copy; the rest edits that copy
     _NF_CACHE[key] = inline_test_locals(search_loop_to_any(index_loop_to_direct(ifexp_assign_to_if(f, True), True), True), True)
     return _NF_CACHE[key]
 
@@ -1964,6 +1964,10 @@ def r6(ctx: RuleCtx) -> None:
                   and any(f'attr:{es}.cmd_args' in fl.origins(a) or norm(a) == es for a in list(c.args) + [k.value for k in c.keywords])]
         if hidden:
             raise Undecided(f'{qn}: no newline test over {es}.cmd_args in the function itself; {short(hidden[0])} may contain it')
+        unread = [c for c in ast.walk(fn) if isinstance(c, ast.Compare) and len(c.ops) == 1 and isinstance(c.ops[0], (ast.In, ast.NotIn))
+                  and isinstance(c.left, ast.Constant) and c.left.value == '\n']
+        if unread:
+            raise Undecided(f'{qn}: a newline test `{short(unread[0], 50)}` exists but not as a branch condition the rule can follow')
         ctx.violation(mod, qn, 'newline test on the serialised arguments', f'no test of the form `"\\n" in <argument of {es}.cmd_args>` in {qn} or the helpers it calls: '
                       'an argument containing a newline cannot be written to build.ninja (ninja_quote raises) and must force the pickled wrapper')
         return
